@@ -225,6 +225,11 @@ impl TabSut {
                     return Err(format!("iter_hash({h:#x}) did not yield stored element {:?} that was inserted with this hash", m));
                 }
             }
+            // internal iteration must visit the same elements
+            let folded = self.table.iter_hash(h).fold(0usize, |a, e| a + (seen.contains(&e.tok) as usize));
+            if folded != seen.len() || self.table.iter_hash(h).count() != seen.len() {
+                return Err(format!("iter_hash({h:#x}).fold visits {} of the {} elements next() yields", folded, seen.len()));
+            }
             // iter_hash_mut must agree
             let mut seen2: Vec<u32> = self.table.iter_hash_mut(h).map(|e| e.tok).collect();
             seen2.sort_unstable();
@@ -454,6 +459,7 @@ impl TabHarness {
                     Ret::Alternate => visit % 2 == 0,
                 };
                 let mut selected: Vec<u32> = Vec::new();
+                let mut rest = 0usize;
                 {
                     let mut it = s.table.extract_if(|e| {
                         env::tick(Class::Closure);
@@ -466,13 +472,23 @@ impl TabHarness {
                         r
                     });
                     let mut n = 0u8;
-                    while cut == 255 || n < cut {
+                    while cut == 255 || n < cut.min(1) || (cut < 254 && n < cut) {
                         match it.next() {
                             Some(e) => yielded.push((e.id, e.tok)),
                             None => break,
                         }
                         n += 1;
                     }
+                    if cut == 254 {
+                        // one external step, then internal iteration (count -> fold)
+                        rest = it.count();
+                    }
+                }
+                chk!(c, cut != 254 || visited.len() == s.model.len(), "extract_if: next() then count() visited {} of {} elements", visited.len(), s.model.len());
+                chk!(c, cut != 254 || yielded.len() + rest == selected.len(), "extract_if: next() then count() = {} + {rest}, but the predicate selected {}", yielded.len(), selected.len());
+                if cut == 254 {
+                    s.model.retain(|e| !selected.contains(&e.1));
+                    return Ok(());
                 }
                 let mut v2 = visited.clone();
                 v2.sort_unstable();
@@ -617,6 +633,7 @@ impl Harness for TabHarness {
             for k in [Ret::All, Ret::None, Ret::EvenIds, Ret::Alternate] {
                 v.push(TabOp::Retain(k));
                 v.push(TabOp::ExtractIf(k, 255));
+                v.push(TabOp::ExtractIf(k, 254));
                 v.push(TabOp::ExtractIf(k, 1));
                 v.push(TabOp::ExtractIf(k, 0));
             }
